@@ -65,15 +65,23 @@ def check(ctx):
                               'in an unrelated namespace would be picked up', node=c)
             if 'find_fqn' in names:
                 sites.append((fn, c))
-    for fn, c in sites:
-        args = list(c.args) + [None] * 3
-        kw = {k.arg: k.value for k in c.keywords}
-        name_arg = kw.get('ns_ids', args[1])
-        scope_arg = kw.get('as_of_inner_scope', args[2])
-        if name_arg is None:
-            run.error('C07.site', fn.module.name, fn.qualname, c, 'find_fqn call without a name argument', node=c)
-            continue
+    def judge(fn: FuncInfo, c: ast.Call, name_arg: ast.expr, scope_arg: Optional[ast.expr], depth: int = 0):
         nname = norm(fn, name_arg)
+        if isinstance(nname, ast.Name) and nname.id in [a.arg for a in fn.params()][(1 if fn.cls is not None else 0):] and depth < 3:
+            # a helper that resolves the name it is handed: judged at every call of the helper, with the actual name and scope
+            callers = [(f_, n_) for f_, n_, k_ in ctx.cg.callers(fn) if k_ == 'call' and isinstance(n_, ast.Call)]
+            nsc = norm(fn, scope_arg) if scope_arg is not None else None
+            sc_param = isinstance(nsc, ast.Name) and nsc.id in [a.arg for a in fn.params()]
+            sc_none = nsc is None or (isinstance(nsc, ast.Constant) and nsc.value is None)
+            if callers and (sc_param or sc_none):
+                for f_, n_ in callers:
+                    b = prog.bind_call(f_.module, n_, callee=fn)
+                    na = b.get(nname.id)
+                    if na is None:
+                        run.error('C07.site', f_.module.name, f_.qualname, n_, f'no argument for the name parameter `{nname.id}` of {fn.qualname}', node=n_)
+                        continue
+                    judge(f_, n_, na, b.get(nsc.id) if sc_param else None, depth + 1)
+                return
         txt = ast.unparse(nname)
         nscope = norm(fn, scope_arg) if scope_arg is not None and not (
             isinstance(scope_arg, ast.Constant) and scope_arg.value is None) else None
@@ -125,6 +133,16 @@ def check(ctx):
             run.error('C07.site', fn.module.name, fn.qualname, c, why, node=c)
         else:
             run.add('C07.site', fn.module.name, fn.qualname, c, ok, why, node=c)
+
+    for fn, c in sites:
+        args = list(c.args) + [None] * 3
+        kw = {k.arg: k.value for k in c.keywords}
+        name_arg = kw.get('ns_ids', args[1])
+        scope_arg = kw.get('as_of_inner_scope', args[2])
+        if name_arg is None:
+            run.error('C07.site', fn.module.name, fn.qualname, c, 'find_fqn call without a name argument', node=c)
+            continue
+        judge(fn, c, name_arg, scope_arg)
     run.floor('C07.site', 8)
     # no hand-rolled scan of FileContents containers in adv_shell
     fc = prog.cls('ast', 'FileContents')
@@ -169,6 +187,20 @@ def check(ctx):
 
     # ---- C07.spelling -----------------------------------------------------------------------------------------------------------
     _spelling(ctx, abs_, ex)
+
+    # ---- C07.memo: a remembered resolution is keyed by the written name AND the referring scope ----------------------------------------
+    from .shared import memo_tables
+    lookups = {f.fq for f in prog.all_functions() if f.module.name == 'dznpy.ast_view'}
+    memo_fns = [f for f in adv_functions(ctx) + [f for f in prog.all_functions() if f.module.name in ('dznpy.ast_view', 'dznpy.scoping')]
+                if any(g.fq in lookups for g in [f] + cg.reachable([f]))]
+    run.stats['C07.memo_functions_examined'] = len(memo_fns)
+    for mf, node, ok, msg in memo_tables(ctx, memo_fns):
+        run.add('C07.memo', mf.module.name, mf.qualname, node, ok, msg, node=node)
+    for fq, line, table in getattr(prog, 'memo_eliminated', []):
+        mf = prog.functions.get(fq)
+        if mf is not None and any(mf is f for f in memo_fns):
+            run.holds('C07.memo', mf.module.name, mf.qualname, f'memo table {table}',
+                      f'memo table `{table}` is keyed by every parameter the remembered value depends on (N22: judged as the computation it remembers)')
 
     # ---- C07.exact ----------------------------------------------------------------------------------------------------------------
     ff = prog.func('ast_view', 'find_fqn')
@@ -362,11 +394,31 @@ def _kind(ctx, abs_, ex, fn: FuncInfo, call: ast.Call):
     name_arg = None
     if isinstance(src, ast.Call):
         name_arg = src.args[1] if len(src.args) > 1 else next((k.value for k in src.keywords if k.arg == 'ns_ids'), None)
+    kfn, knode = fn, call
+    for _ in range(3):
+        # a helper that resolves the name it is handed: the kind wanted is that of the names its callers hand in (all the same kind)
+        nn = ex.normalise(kfn, name_arg) if name_arg is not None else None
+        if not (isinstance(nn, ast.Name) and nn.id in [a.arg for a in kfn.params()][(1 if kfn.cls is not None else 0):]):
+            break
+        views = []
+        for f_, n_, k_ in ctx.cg.callers(kfn):
+            if k_ == 'call' and isinstance(n_, ast.Call):
+                na = prog.bind_call(f_.module, n_, callee=kfn).get(nn.id)
+                if na is not None:
+                    views.append((f_, n_, na))
+        def owner_kind(v):
+            e_ = ex.normalise(v[0], v[2])
+            if ast.unparse(e_).endswith('.type_name.value'):
+                return str(strip_opt(abs_.type_at(v[0], e_.value.value, v[1])))
+            return ast.unparse(e_)
+        if not views or len({owner_kind(v) for v in views}) != 1:
+            break
+        kfn, knode, name_arg = views[0]
     if name_arg is not None:
-        t = ast.unparse(ex.normalise(fn, name_arg))
+        t = ast.unparse(ex.normalise(kfn, name_arg))
         if t.endswith('.type_name.value'):
-            owner = ex.normalise(fn, name_arg).value.value
-            ot = strip_opt(abs_.type_at(fn, owner, call))
+            owner = ex.normalise(kfn, name_arg).value.value
+            ot = strip_opt(abs_.type_at(kfn, owner, knode))
             on = ot[1].split('.')[-1] if ot[0] == 'cls' else ot[0]
             if on == 'Port':
                 want = 'Interface'
@@ -456,6 +508,58 @@ def _memo_key_only(ctx, fn: FuncInfo, x: ast.Attribute) -> bool:
     return True
 
 
+def _key_only_use(ctx, fn: FuncInfo, use: ast.AST, depth: int = 0) -> bool:
+    """The value at `use` only ever becomes (part of) the key with which a dict is probed / indexed."""
+    prog = ctx.prog
+    cur = use
+    p = prog.parent(cur)
+    while isinstance(p, (ast.Tuple, ast.Attribute, ast.JoinedStr, ast.FormattedValue)) or (
+            isinstance(p, ast.Call) and cur in p.args and isinstance(p.func, ast.Name) and p.func.id in ('str', 'repr', 'tuple', 'hash')):
+        cur, p = p, prog.parent(p)
+    if isinstance(p, ast.Subscript) and p.slice is cur:
+        return True
+    if isinstance(p, ast.Compare) and p.left is cur and len(p.ops) == 1 and isinstance(p.ops[0], (ast.In, ast.NotIn)):
+        return True
+    if isinstance(p, ast.Call) and isinstance(p.func, ast.Attribute) and p.func.attr in ('get', 'setdefault', 'pop') and p.args and p.args[0] is cur:
+        return True
+    if isinstance(p, ast.Assign) and p.value is cur and len(p.targets) == 1 and isinstance(p.targets[0], ast.Name) and depth < 2:
+        k = p.targets[0].id
+        stores = [n for n in iter_own_nodes(fn.node) if isinstance(n, ast.Name) and n.id == k and isinstance(n.ctx, ast.Store)]
+        loads = [n for n in iter_own_nodes(fn.node) if isinstance(n, ast.Name) and n.id == k and isinstance(n.ctx, ast.Load)]
+        return len(stores) == 1 and bool(loads) and all(_key_only_use(ctx, fn, n, depth + 1) for n in loads)
+    return False
+
+
+def _lookup_name_param(ctx, callee: FuncInfo, call: ast.Call, arg_below: ast.AST, depth: int = 0) -> bool:
+    """`arg_below` is the argument of `call` for a parameter of `callee` that the callee only uses as the name of a find_fqn
+    lookup (directly or through another such helper) or as the key of a memo of such lookups."""
+    prog = ctx.prog
+    b = prog.bind_call(ctx.prog.modules.get(callee.module.name, callee.module), call, callee=callee)
+    pname = next((k for k, v in b.items() if v is arg_below), None)
+    if pname is None or depth > 2:
+        return False
+    uses = [n for n in iter_own_nodes(callee.node) if isinstance(n, ast.Name) and n.id == pname and isinstance(n.ctx, ast.Load)]
+    if not uses or any(isinstance(n, ast.Name) and n.id == pname and isinstance(n.ctx, ast.Store) for n in iter_own_nodes(callee.node)):
+        return False
+    looked_up = False
+    for u in uses:
+        par = prog.parent(u)
+        if isinstance(par, ast.Call) and u in par.args + [k.value for k in par.keywords]:
+            cs = [c for c in ctx.cg.env(callee).resolve_call(par) if isinstance(c, FuncInfo)]
+            if any(c.qualname == 'find_fqn' for c in cs):
+                bb = prog.bind_call(callee.module, par)
+                if bb.get('ns_ids') is u or (len(par.args) > 1 and par.args[1] is u):
+                    looked_up = True
+                    continue
+            elif cs and all(_lookup_name_param(ctx, c, par, u, depth + 1) for c in cs):
+                looked_up = True
+                continue
+        if _key_only_use(ctx, callee, u):
+            continue
+        return False
+    return looked_up
+
+
 def _spelling(ctx, abs_, ex):
     run, prog = ctx.run, ctx.prog
     fqn_cls = prog.cls('cpp_gen', 'Fqn')
@@ -478,11 +582,15 @@ def _spelling(ctx, abs_, ex):
                             run.holds('C07.spelling', fn.module.name, fn.qualname, q,
                                       'comparison with the built-in type name (no declaration involved)', node=x)
                             continue
+                    below = x
                     while p is not None and not isinstance(p, ast.stmt):
                         if isinstance(p, ast.Call):
                             cs = [c for c in ctx.cg.env(fn).resolve_call(p) if isinstance(c, FuncInfo)]
                             if any(c.qualname == 'find_fqn' for c in cs):
                                 in_find = True
+                            elif cs and below is not p.func and all(_lookup_name_param(ctx, c, p, below) for c in cs):
+                                in_find = True      # handed to a helper that uses it as a lookup key only
+                        below = p
                         p = prog.parent(p)
                     if not in_find and _memo_key_only(ctx, fn, x):
                         run.holds('C07.spelling', fn.module.name, fn.qualname, ctx.flow.enclosing_stmt(x),
